@@ -590,7 +590,7 @@ func (w *World) onSend(n *Node, recipients []primitives.MemberId, raw *interface
 	w.sent = append(w.sent, rec)
 	w.ev("send n%d -> %v : %s #%s", n.idx, rec.to, m.Short(), shortHash(c.Content))
 	w.onSendObserved(n, rec)
-	if w.cfg.SendErrPermille > 0 && w.ch.Chance("send-err", w.cfg.SendErrPermille) {
+	if w.cfg.SendErrPermille > 0 && !w.stabilised && !w.recovering && w.ch.Chance("send-err", w.cfg.SendErrPermille) {
 		w.stats.Fault("send-error")
 		return errors.New("network send failed")
 	}
